@@ -457,6 +457,15 @@ func (w *World) Count(op *Op) (kubeN, waitN, storeN, extN int) {
 	return r.KubeN, r.WaitN, r.StoreN, r.ExtN
 }
 
+// DryCount runs the op without fault on a clone and returns the clone's result (its event list tells which call sits
+// at which position, so a generator can aim a fault at - or away from - a particular call).
+func (w *World) DryCount(op *Op) *Result {
+	c := w.Clone()
+	o := *op
+	o.Fault = Fault{}
+	return c.Run(&o)
+}
+
 // ConcResult is what one of several concurrently run operations did.
 type ConcResult struct {
 	ID     int
